@@ -26,8 +26,13 @@
 (* ev = master-side events of the same cycle (wdone / rdone: a write / read *)
 (*   is answered, wany: the answered write had an enabled byte); only the   *)
 (*   CSR clause uses them.                                                 *)
+(* c.ahead = 1 (optional; the harness shim then has a buffer stage on AR   *)
+(*   and / or W, i.e. the partner accepts read addresses ahead of its      *)
+(*   answers / write data ahead of the address): the monitor counts the    *)
+(*   reads the partner has accepted and not answered (nar) and the W beats *)
+(*   accepted beyond the accepted AWs (dw), for the vacuity witnesses only. *)
 (***************************************************************************)
-EXTENDS Integers, Sequences, FiniteSets, TLC
+EXTENDS Integers, Sequences, FiniteSets, TLC, BridgeWit
 
 VARIABLES sl
 
@@ -36,7 +41,7 @@ Groups(c) == { c.gfree[i] : i \in 1..NG } \ {0}
 SInputs(c) == { [i \in 1..NG |-> IF c.gfree[i] = 0 THEN 1 ELSE f[c.gfree[i]]] : f \in [Groups(c) -> {0, 1}] }
 
 SInit == sl = [aw |-> <<>>, w |-> <<>>, ar |-> <<>>, wb |-> <<>>, nwe |-> 0, nre |-> 0,
-               wcnt |-> 0, alen |-> <<>>, wlen |-> <<>>,
+               wcnt |-> 0, alen |-> <<>>, wlen |-> <<>>, nar |-> 0, dw |-> 0,
                okhold |-> TRUE, okwb |-> TRUE, okcsr |-> TRUE, okaxi |-> TRUE, sfair |-> TRUE]
 
 Min2(a, b) == IF a < b THEN a ELSE b
@@ -81,7 +86,12 @@ AxiNext(c, so) ==
       both  == alenA # <<>> /\ wlenA # <<>>
       okbeats == /\ (both => Head(alenA) = Head(wlenA))
                  /\ (full /\ wfire /\ ~wlast /\ sl.wlen = <<>> /\ sl.alen # <<>> => sl.wcnt < Head(sl.alen))
-  IN [sl EXCEPT !.aw = IF awv /\ ~awfire THEN AxPay(c, so, "aw") ELSE <<>>,
+      ahead == Flag(c, "ahead")
+      rfire == so[13] = 1 /\ so[14] = 1
+      Clip(x) == IF x > 3 THEN 3 ELSE IF x < 0 - 3 THEN 0 - 3 ELSE x
+  IN [sl EXCEPT !.nar = IF ahead THEN Clip(sl.nar + (IF arfire THEN 1 ELSE 0) - (IF rfire THEN 1 ELSE 0)) ELSE 0,
+                !.dw  = IF ahead THEN Clip(sl.dw + (IF wfire THEN 1 ELSE 0) - (IF awfire THEN 1 ELSE 0)) ELSE 0,
+                !.aw = IF awv /\ ~awfire THEN AxPay(c, so, "aw") ELSE <<>>,
                 !.w  = IF wv /\ ~wfire THEN AxPay(c, so, "w") ELSE <<>>,
                 !.ar = IF arv /\ ~arfire THEN AxPay(c, so, "ar") ELSE <<>>,
                 !.wcnt = wcnt1,
@@ -115,7 +125,9 @@ SStep(c, g, so, ev) ==
              [] c.sp = "axi"  -> AxiNext(c, so)
              [] c.sp = "csr"  -> CsrNext(c, so, ev)
              [] OTHER         -> sl
-  IN sl' = [n EXCEPT !.sfair = \A i \in 1..NG : g[i] = 1]
+  IN /\ sl' = [n EXCEPT !.sfair = \A i \in 1..NG : g[i] = 1]
+     /\ WitIf(n.nar >= 2, c, 8, "second AR accepted before first R")
+     /\ WitIf(n.dw >= 1, c, 9, "W accepted before its AW")
 
 SlaveValidHold   == sl.okhold    \* AW/W/AR: a raised valid is not withdrawn or changed before its ready
 SlaveWishbone    == sl.okwb      \* stb => cyc, cycle held stable until acknowledged
